@@ -629,6 +629,32 @@ func runC19(c *Ctx) {
 	c.Floor(r5, 30, "handler status/error sites")
 
 	s.checkConsumerBeforeProducer(c, "consumer-before-subscription")
+	s.checkWebsocketWrites(c, p.Locksets(s.Runner), "websocket-writes-serialised-per-connection")
+	// every field of the configuration that the server itself reads back from a value that crossed the wire is
+	// serialised: a `json:"-"` (or unexported) field read by the runner arrives empty when the value came by REST
+	{
+		rTag := c.Rule("wire-fields-serialised", "no field of types.ProcessConfig that functions of the app package read carries the tag json:\"-\"")
+		st := s.ProcConf.Underlying().(*types.Struct)
+		nT := 0
+		for i := 0; i < st.NumFields(); i++ {
+			f := st.Field(i)
+			if !f.Exported() {
+				continue
+			}
+			nT++
+			if jsonTag(st.Tag(i)) != "-" {
+				continue
+			}
+			read := false
+			for _, fn := range p.FuncsOfPkg("app") {
+				if len(FindInstrs(fn, func(in ssa.Instruction) bool { return IsLoadOf(in, f) })) > 0 {
+					read = true
+				}
+			}
+			c.Check(!read, rTag, "field:"+f.Name(), "", "not read by the runner", "ProcessConfig."+f.Name()+" is excluded from JSON but read by the runner: a configuration that arrives through the REST API (project update, process update) lacks it, so what the runner derives from it (e.g. new replicas decoded from OriginalConfig on scale-up) differs from the direct call")
+		}
+		c.Check(nT > 10, rTag, "floor:fields", "", "ProcessConfig fields examined", "ProcessConfig has no exported fields")
+	}
 
 	// ------------------------------------------------------------------ (6)
 	r6 := c.Rule("no-reachable-panic-source", "no explicit panic instruction is reachable from a REST handler through the runner's implementation of IProject (gin.Recovery would turn it into a 500), and every slice expression of the log range function is proved in bounds")
